@@ -162,7 +162,7 @@ def run(tier, seed, replay=None):
         R.obligation(f'instance C05_{dialect} (K_tables tbl = true by vm_compute; cb={d["cb"]} <> CbIgnore)', ok)
         if ok:
             pa = print_assumptions(out)
-            R.notes.setdefault('print_assumptions', {})[dialect] = pa or ['(cached build)']
+            R.notes.setdefault('print_assumptions', {})[dialect] = pa
         else:
             broken[dialect] = BrokenTie(f'instance theorem C05_{dialect} no longer checks '
                                         f'(cb={d["cb"]}, see Gen/C05_inst_{dialect}.v)', out[-1500:])
@@ -205,11 +205,6 @@ def run(tier, seed, replay=None):
                 broken[dialect] = BrokenTie(f'correspondence shard {name} does not compile', out[-1500:])
                 break
             vals = coq_eval_lists(out)
-            if not vals and out == '(cached)':
-                # cached: recompute output (cheap) by forcing
-                (GEN / f'{name}.hash').unlink(missing_ok=True)
-                rc, out = compile_gen(name, deps=[f'Tbl_{dialect}'])
-                vals = coq_eval_lists(out)
             for i in parse_coq_list(vals[-1]):
                 mism.append(k + i - 1)
         R.obligation(f'correspondence Model/Sly.v vs Parser.parse ({dialect}, {len(rows)} cases)', not mism)
